@@ -467,7 +467,20 @@ def watch_layer(ctx: fw.Ctx, header: str = HEADER) -> None:
             continue
         tr = cq.clist(labels)
         w0 = f'(winit {cq.cbool(bool(cfg.get("start_paused", False)))} {cq.cZ(int(cfg.get("rv0", 100)))})'
-        term = f'match wrej {cq.cnat(int(cfg.get("retries", 0)))} {w0} {tr} 0 with None => true | Some _ => false end'
+        # the fault-free continuation the driver lets the real code take at the end (faults cleared, resumed, 8 s):
+        # is it `quiet` in the model's sense, and has the implementation then caught up (C19_catch_up's conclusion)?
+        L = r['labels']
+        k0 = r['quiesce_from'] + (1 if r['quiesce_from'] < len(L) and L[r['quiesce_from']]['l'] == 'Resume' else 0)
+        QUIET = {'ReqList', 'ListOk', 'Yield', 'ReqWatch', 'WatchOk'}
+        py_quiet = all(l['l'] in QUIET or (l['l'] == 'Line' and l['line'] == 'ev') or (l['l'] == 'End' and l['how'] == 'closed') for l in L[k0:])
+        ctx.count('quiescence_suffix', ('quiet' if py_quiet else 'not-quiet (inactivity timeout / leftover of an earlier fault)') +
+                  ('' if not r['dead'] else ', stream dead'))
+        nn = cq.cnat(int(cfg.get("retries", 0)))
+        caught = ('match position (ph (cl w)) with Some (Some v) => forallb (fun c => Z.leb (c_rv c) v) (log (sv w)) | _ => false end'
+                  if not r['dead'] else 'true')
+        term = (f'(let tr := {tr} in match wrej {nn} {w0} tr 0 with Some _ => false | None => '
+                f'match wrun {nn} {w0} tr with None => false | Some w => '
+                f'Bool.eqb (forallb quiet (skipn {cq.cnat(k0)} tr)) {cq.cbool(py_quiet)} && {caught} end end)')
         cases.append(fw.Case(term, {**data, 'labels': [brief(l) for l in r['labels']]},
                              diag=f'wrej {cq.cnat(int(cfg.get("retries", 0)))} {w0} {tr} 0'))
         ctx.cov['traces_validated_against_impl'] += 1
